@@ -170,3 +170,15 @@ Definition interpret_copies_self_data (l : list Item) : bool :=
                         String.eqb (shape_of i) "copy:deepcopy(self.data)" ||
                         String.eqb (shape_of i) "copy:dict-copy(self.data)")) l.
 Definition has_return (l : list Item) : bool := existsb (is_op "return") l.
+
+(* Directory enumerations (rglob / glob / iterdir / listdir / scandir / walk) whose result is NOT directly wrapped in sorted(...):
+   their order is the file system's, and it would reach component order, event order and log hashes (repair dc5ff5b sorted the one
+   the specification repository had).  Reviewed list: none in the simulation path. *)
+Definition reviewed_unsorted_enumerations : list (string * string) := [].
+Definition pair_eqb (a b : string * string) : bool := String.eqb (fst a) (fst b) && String.eqb (snd a) (snd b).
+Fixpoint pairs_eqb (a b : list (string * string)) : bool :=
+  match a, b with
+  | [], [] => true
+  | x :: a', y :: b' => pair_eqb x y && pairs_eqb a' b'
+  | _, _ => false
+  end.
